@@ -352,6 +352,15 @@ def run(ctx):
             rng = ctx.rng_for('meta', ctx.shard, k)
             with ctx.case(label=('meta-escape', k)):
                 check_meta_escapes(ctx, rng, wtree)
+        # the ends of the code-point range and values beyond it (well formed, not decodable: SyntaxError, never another exception)
+        for ti, text in enumerate(['\\U%08X' % v for v in (0, 0x41, 0xD7FF, 0xD800, 0xDFFF, 0xE000, 0xFFFF, 0x10000, 0x10FFFF, 0x110000, 0x11FFFF,
+                                                            0x1FFFFF, 0x200000, 0xFFFFFF, 0x7FFFFFFF, 0x80000000, 0xFFFFFFFF)] +
+                                   ['a\\U00110000b', '[\\U001FFFFF]', '\\U0011000', '\\u%04X' % 0xFFFF, '\\x7f\\U00110000']):
+            if not ctx.mine(ti):
+                continue
+            with ctx.case(label=text):
+                check_text(ctx, text, wtree)
+            ctx.count('range_end_texts')
         idx = 0
         plan = [(n, 100) for n in range(1, (4 if quick else 5) + 1)]
         if not quick:
